@@ -237,6 +237,7 @@ type Obligation struct {
 	StaticOK bool
 	Note     string
 	body     string
+	pcRef    []string // the path condition this obligation was generated under (vacuity check)
 	Result   SolveResult
 	PathID   int
 }
@@ -256,6 +257,7 @@ type Run struct {
 	arrSorts      map[string]Sort
 	arrRefEl      map[string]bool
 	arrSliceRefEl map[string]string // arrays whose elements are slices of references: slice sort
+	libFieldArr   map[string]bool   // field arrays of library (non-frp) struct types
 	mu            sync.Mutex
 	obls          []*Obligation
 	wg            sync.WaitGroup
